@@ -187,8 +187,46 @@ def run(tier):
         else:
             stats["sibling_prefill_cases"] += 1
             v.distinct(("sib", m, tuple(prog), start))
+    # (5) MANY lines in one call: a line (or a pair of lines) repeated 300 and 66 000 times - more than 255 / 65535 lines, branches,
+    # immediates ... of one kind in a call; the code is the repetition of the line's code (compared through a fingerprint)
+    def fnv(hexs):
+        h = 1469598103934665603
+        for b in bytes.fromhex(hexs):
+            h = ((h ^ b) * 1099511628211) & 0xFFFFFFFFFFFFFFFF
+        return "%016x" % h
+    fam_first = {}
+    for l in R:
+        fam_first.setdefault(l.split()[0], l)
+    pick = sorted(fam_first.values())
+    pick = [l for l in pick if alone["211"][l]]
+    reps = PROBES[:6] + rnd.sample(pick, min(len(pick), 14 if not full else 60))
+    rcases, rmeta = [], []
+    for i, l in enumerate(reps):
+        for N in ((300, 66000) if (full or i % 4 == 0) else (300,)):
+            other = rnd.choice(pick)
+            for prog in ([l] * N, [l, other] * (N // 2)):
+                m = masks[i % 3]
+                exp = enc(prog[:2], m) * (len(prog) // 2)
+                rcases.append(["new 0 int", "opt 0 mov %s" % m[0], "opt 0 swap %s" % m[1], "opt 0 nobase %s" % m[2], "asm 0 %s" % common.hx("\n".join(prog)), "sumoff 0"])
+                rmeta.append((l, prog[1], N, m, exp))
+    rres = common.run_cases(binary, rcases, tag="c06r", per_case_timeout=120)
+    stats["repetition_cases"] = 0
+    for (l, l2, N, m, exp), cmds, r in zip(rmeta, rcases, rres):
+        v.count()
+        case = {"key": "repeat %r / %r x %d [%s]" % (l, l2, N, m), "fam": "concat_repeat", "n": N}
+        if r["crash"]:
+            v.violation(case, r["crash"]["sig"], r["crash"]["stderr"][-800:])
+            continue
+        a, so = r["records"][4].split(), r["records"][5].split()
+        if a[1] != "0" or int(so[1]) != len(exp) // 2:
+            v.violation(case, "repeated:rc/offset-differs", "rc=%s off=%s want %d" % (a[1], so[1], len(exp) // 2))
+        elif so[2] != fnv(exp):
+            v.violation(case, "repeated:bytes-differ-from-repetition", "fingerprint %s want %s" % (so[2], fnv(exp)))
+        else:
+            stats["repetition_cases"] += 1
+            v.distinct(("rep", l, l2, N, m))
     v.cov["rule"] = ("representative set R (one line per structural group of the C01-C05 generators + skipped lines: comments, labels, section/global, blanks), enc(l) = line alone on a fresh "
                      "instance with the same options; all ordered pairs of R; seeded programs of 3-200 lines x all 2^(k-1) splits for k<=7 (random splits beyond) x start offsets {0,1,19,4095} x prefill "
-                     "{00,CC,FF,90} x repetition after asm_set_offset; programs assembled over the code of a sibling program (same lines, other constants) or of themselves; oracle: byte equality with the concatenation and offset == start + total")
+                     "{00,CC,FF,90} x repetition after asm_set_offset; programs assembled over the code of a sibling program (same lines, other constants) or of themselves; one line / a pair of lines repeated 300 and 66000 times in one call; oracle: byte equality with the concatenation and offset == start + total")
     v.cov["exhaustive"] = False
     return v.finish(stats, stats["representative_lines"] >= 100 and stats["pairs"] > 5000, "representative set too small: %r" % stats)
